@@ -263,7 +263,8 @@ theorem heatBathSweep_law_invariant_cut (H : Ham) (β : Rat) (hβ : 0 < β)
       (lawK (cfgSpace H N L) (heatBathSweepT H (makeBondWeights H) β L)) :=
   Qmc.Law.heatBathSweep_law_invariant_cut H β hβ hW hw N L hH
 
-/-! ### cluster update and the whole step — PARTIAL in the hypothesis `TravOK` on the traversal -/
+/-! ### cluster update and the whole step, with the hypothesis `TravOK` on the traversal explicit
+(the hypothesis-free forms, `TravOK` and `hperm` proved, are at the end of this file) -/
 
 /-- **the coins of the cluster update**: one `flip (w_r/2)` per listed cluster, union of the accepted ones
 flipped = independent choices over the clusters (`flipsK`), for pairwise disjoint clusters -/
@@ -278,7 +279,7 @@ theorem cluster_coins_law (whole : Bool) (lab : Array Nat) (w : Nat → Rat) (hw
 /-- **cluster update: law = cluster kernel of the update's own family** (`ClusterFamily.ofModel`: the clusters
 of closure-weight 1 found by `traverse`, each a C09 `ClusterMove`), on a canonical-tag configuration of
 `cfgSpace` whose skeleton is `TravOK` (traversal not `bad`, representatives in different components —
-decidable, not proved in general) -/
+decidable; proved in general in QmcProofs/LawTravOK.lean, see `clusterUpdate_law_eq_kernel` below) -/
 theorem clusterUpdate_law_eq_kernel_partial (fz : Nat → Bool) (H : Ham) (N L : Nat) (hV : VarsOK H N)
     (c : Config) (hc : c ∈ cfgSpace H N L) (ht : TagCanon c.slots) (htr : TravOK (skeleton c.slots))
     (c' : Config) :
@@ -557,6 +558,41 @@ theorem isingStep_law_eq_timestepK (s : Sampler.IsingSampler) (hv : s.spec.Valid
             (s.spec.hamWF hv))),
         restr (goodSpace s.spec.ham s.spec.nvars L) (refreshK s.spec.nvars)] :=
   step_law_eq_kernels_components s.spec.ham β hβ (fun b i => Refine.ising_w_nonneg s.spec hg b i i) hNb _ L
+    (s.spec.hamWF hv) (isingSpec_varsPos s.spec) s.frozenBond (ising_edgeNotFrozen s)
+    (clusterSym_cfgSpace _ _ _ L (Composed.ising_bondSym s).sym (Composed.ising_bondSym s).const)
+
+/-- heat-bath twin of `step_law_eq_kernels_components`: `sweepKHB ; clusterK (ofComponents) ; refreshK` with the table
+`makeBondWeights H` — the kernels of `Kernel.timestepKHB … (ClusterFamily.ofComponents …)`, restricted to `goodSpace` -/
+theorem step_law_eq_kernels_components_hb (H : Ham) (β : Rat) (hβ : 0 ≤ β) (hW : 0 < (makeBondWeights H).sum)
+    (hw : ∀ b i, 0 ≤ H.w b i i) (N L : Nat) (hV : VarsOK H N) (hp : VarsPos H) (fz : Nat → Bool)
+    (hfre : EdgeNotFrozen H (fun o => fz o.bond))
+    (hsym : ClusterSym H (fun o => fz o.bond) (cfgSpace H N L)) :
+    lawK (goodSpace H N L) (stepCfgT H (some (makeBondWeights H)) fz β L) =
+      compList [sweepKHB H (makeBondWeights H) β (goodSpace H N L) L,
+        restr (goodSpace H N L) (clusterK (ClusterFamily.ofComponents (fun o => fz o.bond) H N L hV)),
+        restr (goodSpace H N L) (refreshK N)] := by
+  rw [lawK_stepCfgT_heatBath H β hβ hW hw N L hV fz hsym
+    (fun _ hc => cfgSpace_travOK hV hp (mem_goodSpace.mp hc).1)]
+  unfold stepKernels
+  have : restr (goodSpace H N L) (clusterK (ClusterFamily.ofModel (fun o => fz o.bond) H N L hV)) =
+      restr (goodSpace H N L) (clusterK (ClusterFamily.ofComponents (fun o => fz o.bond) H N L hV)) := by
+    funext a b
+    exact clusterKernel_eq_components _ H N L hV hp hfre a.1 (mem_goodSpace.mp a.2).1 b.1
+  rw [this]
+
+/-- **the Ising whole step, heat bath** (`set_enable_heatbath(true)`): the law of `Sampler.isingTimestep` (configuration
+part) on the Good configurations is `sweepKHB ; clusterK (ofComponents) ; refreshK` — the composition whose invariance
+is `Kernel.ising_timestep_invariant_cut_hb` -/
+theorem isingStep_law_eq_timestepK_hb (s : Sampler.IsingSampler) (hv : s.spec.Valid) (hg : 0 ≤ s.spec.gamma)
+    (hW : 0 < (makeBondWeights s.spec.ham).sum) (β : Rat) (hβ : 0 ≤ β) (L : Nat) :
+    lawK (goodSpace s.spec.ham s.spec.nvars L)
+        (stepCfgT s.spec.ham (some (makeBondWeights s.spec.ham)) s.frozenBond β L) =
+      compList [sweepKHB s.spec.ham (makeBondWeights s.spec.ham) β (goodSpace s.spec.ham s.spec.nvars L) L,
+        restr (goodSpace s.spec.ham s.spec.nvars L)
+          (clusterK (ClusterFamily.ofComponents (fun o => s.frozenBond o.bond) s.spec.ham s.spec.nvars L
+            (s.spec.hamWF hv))),
+        restr (goodSpace s.spec.ham s.spec.nvars L) (refreshK s.spec.nvars)] :=
+  step_law_eq_kernels_components_hb s.spec.ham β hβ hW (fun b i => Refine.ising_w_nonneg s.spec hg b i i) _ L
     (s.spec.hamWF hv) (isingSpec_varsPos s.spec) s.frozenBond (ising_edgeNotFrozen s)
     (clusterSym_cfgSpace _ _ _ L (Composed.ising_bondSym s).sym (Composed.ising_bondSym s).const)
 
